@@ -75,7 +75,7 @@ end TxIn
 
 /-- the fields of `pset::Input` that `from_txin`, `asset_issuance`, `issuance_ids`, `is_pegin` and
     the input loop of `extract_tx` read or write -/
-structure PsetInput where
+structure IssPsetInput where
   previousTxid : Bytes
   /-- `previous_output_index`: bit 30 = pegin, bit 31 = issuance, except for 0xffffffff -/
   previousOutputIndex : Nat
@@ -93,20 +93,20 @@ structure PsetInput where
   issuanceAssetEntropy : Option Bytes := none
   deriving Repr, DecidableEq
 
-namespace PsetInput
+namespace IssPsetInput
 
 /-- `Input::from_prevout` -/
-def fromPrevout (o : OutPoint) : PsetInput := { previousTxid := o.txid, previousOutputIndex := o.vout }
+def fromPrevout (o : OutPoint) : IssPsetInput := { previousTxid := o.txid, previousOutputIndex := o.vout }
 
 /-- `Input::from_txin` (`|=` on a `u32`: the index is < 2^32, so no truncation is involved) -/
-def fromTxin (t : TxIn) : PsetInput :=
+def fromTxin (t : TxIn) : IssPsetInput :=
   let hasIss := t.hasIssuance
-  let r : PsetInput :=
+  let r : IssPsetInput :=
     { fromPrevout t.previousOutput with
       sequence := some t.sequence
       finalScriptSig := some t.scriptSig
       finalScriptWitness := some t.witness.scriptWitness }
-  let r : PsetInput :=
+  let r : IssPsetInput :=
     if t.isPegin then
       { r with previousOutputIndex := r.previousOutputIndex ||| 2^30, peginWitness := some t.witness.peginWitness }
     else r
@@ -131,24 +131,24 @@ def valueOf (amount : Option Nat) (comm : Option Bytes) : Value :=
   | some x, none => .explicit x
 
 /-- `Input::asset_issuance` -/
-def assetIssuance (p : PsetInput) : AssetIssuance :=
+def assetIssuance (p : IssPsetInput) : AssetIssuance :=
   { nonce := p.issuanceBlindingNonce.getD Issuance.zero32
     entropy := p.issuanceAssetEntropy.getD Issuance.zero32
     amount := valueOf p.issuanceValueAmount p.issuanceValueComm
     inflationKeys := valueOf p.issuanceInflationKeys p.issuanceInflationKeysComm }
 
 /-- `Input::has_issuance` -/
-def hasIssuance (p : PsetInput) : Bool := !p.assetIssuance.isNull
+def hasIssuance (p : IssPsetInput) : Bool := !p.assetIssuance.isNull
 
 /-- `Input::is_pegin`: the coinbase index carries no flags -/
-def isPegin (p : PsetInput) : Bool := p.previousOutputIndex != 0xffffffff && p.previousOutputIndex.testBit 30
+def isPegin (p : IssPsetInput) : Bool := p.previousOutputIndex != 0xffffffff && p.previousOutputIndex.testBit 30
 
 /-- the index with the pegin/issuance flags removed
     (`if idx == 0xffff_ffff { idx } else { idx & !((1 << 30) | (1 << 31)) }` on a `u32`) -/
 def plainIndex (idx : Nat) : Nat := if idx = 0xffffffff then idx else idx % 2^30
 
 /-- `Input::issuance_ids` (as coded after the fix cbaa384: the entropy commits to the plain index) -/
-def issuanceIds (H : Hashes) (p : PsetInput) : Option (Bytes × Bytes) :=
+def issuanceIds (H : Hashes) (p : IssPsetInput) : Option (Bytes × Bytes) :=
   let nonce := p.issuanceBlindingNonce.getD Issuance.zero32
   let entropy :=
     if nonce = Issuance.zero32 then
@@ -158,7 +158,7 @@ def issuanceIds (H : Hashes) (p : PsetInput) : Option (Bytes × Bytes) :=
   Issuance.idsOfEntropy H entropy p.issuanceValueComm.isSome
 
 /-- the body of the input loop of `PartiallySignedTransaction::extract_tx` -/
-def extractIn (p : PsetInput) : TxIn :=
+def extractIn (p : IssPsetInput) : TxIn :=
   { previousOutput := ⟨p.previousTxid, plainIndex p.previousOutputIndex⟩
     isPegin := p.isPegin
     scriptSig := p.finalScriptSig.getD []
@@ -170,5 +170,5 @@ def extractIn (p : PsetInput) : TxIn :=
         scriptWitness := p.finalScriptWitness.getD []
         peginWitness := p.peginWitness.getD [] } }
 
-end PsetInput
+end IssPsetInput
 end EV
